@@ -107,7 +107,16 @@ def main():
         else:
             a = a[1:]
     ms = []
-    for dp, dn, fn in os.walk("/repo/src"):
+    retest = None
+    if "--retest" in sys.argv:
+        retest = json.load(open(sys.argv[sys.argv.index("--retest") + 1]))
+        for r in retest:
+            if r["status"] == "survived-tests" and not r.get("fired"):
+                lines = open(os.path.join("/repo", r["file"])).read().split("\n")
+                i = r["line"] - 1
+                ind = re.match(r"\s*", lines[i]).group(0)
+                ms.append((r["file"], i, r["op"], ind + r["new"]))
+    for dp, dn, fn in ([] if retest is not None else os.walk("/repo/src")):
         for f in sorted(fn):
             if f.endswith(".rs"):
                 rel = os.path.relpath(os.path.join(dp, f), "/repo")
